@@ -695,6 +695,41 @@ def _try_continuation(b, cont, dest_local):
     return None
 
 
+def thread_materialised_bools(doc):
+    """`if matches!(x, P) { A } else { B }` lowers to: arm P: c = true; goto J   otherwise: c = false; goto J   J: switch c -> A | B.
+    A block that ends by assigning a boolean *constant* to c and jumping to an (otherwise empty) block that only tests c is sent straight
+    to the branch that test would take: the detour through J carries no information and creates the infeasible paths "matched, then else".
+    The assignments stay; only the jump is retargeted.  Returns the number of jumps threaded."""
+    n = 0
+    for b in doc['bodies']:
+        blocks = b['blocks']
+        for j, J in enumerate(blocks):
+            t = J['term']
+            if J['stmts'] or t['k'] != 'switch' or t.get('discr_ty') != 'bool':
+                continue
+            d = t['discr']
+            if d['k'] not in ('move', 'copy') or d['place']['proj']:
+                continue
+            c = d['place']['local']
+            tg = dict((v, x) for v, x in t['targets'])
+            for P in blocks:
+                pt = P['term']
+                if P is J or pt['k'] != 'goto' or pt.get('target') != j or not P['stmts']:
+                    continue
+                st = P['stmts'][-1]
+                if st['k'] != 'assign' or st['place']['local'] != c or st['place']['proj']:
+                    continue
+                rv = st['rv']
+                if rv['k'] != 'use' or rv['op']['k'] != 'const' or not isinstance(rv['op'].get('val'), bool):
+                    continue
+                val = 1 if rv['op']['val'] else 0
+                dest = tg.get(val, t['otherwise'])
+                if isinstance(dest, int):
+                    P['term'] = dict(pt, target=dest)
+                    n += 1
+    return n
+
+
 def _thread_known_returns(b, grafted, ret_local, RET, H, EARLY):
     """In a grafted closure returning Result<(), E>: where the value returned is statically Ok (`Ok(())` literal) or Err (`?` residual), route that
     return directly to the loop header / the early exit instead of through the Ok/Err test at RET, so that no infeasible path
@@ -890,10 +925,13 @@ class Facts:
         self.doc = doc
         self.meta = doc['meta']
         from .desugar import apply_desugaring
+        self.threaded_bools = thread_materialised_bools(doc)
         self.desugared = apply_desugaring(doc)
         self.renamed = apply_renames(doc, _load_inventory())
         self.inlined = apply_inlining(doc, _load_inventory())
         self.devirtualized = devirtualize_fn_values(doc)
+        from .desugar import unroll_literal_loops
+        self.unrolled = unroll_literal_loops(doc)
         self.helper_paths = {h for _, h in self.inlined} | {c for _, c in self.desugared}
         self.adts = {a['path']: a for a in doc['adts']}
         self.param_names = _load_fingerprints().get('#params', {})
